@@ -394,6 +394,41 @@ impl<'a, const D: usize> crate::Partition<(&'a [PointND<D>], &'a [f64])> for Mul
     }
 }
 
+/// Read-only exports for the verification harness.
+#[cfg(feature = "coupe_verif")]
+pub mod verif_exports {
+    /// The partition scheme in preorder: for each node `num_splits`, the bit
+    /// patterns of its modifiers, then `1` and its children or `0`.
+    pub fn partition_scheme(num_parts: usize, max_iter: usize) -> Vec<u64> {
+        fn flatten(s: &super::PartitionScheme, out: &mut Vec<u64>) {
+            out.push(s.num_splits as u64);
+            out.push(s.modifiers.len() as u64);
+            out.extend(s.modifiers.iter().map(|m| m.to_bits()));
+            match &s.next {
+                Some(children) => {
+                    out.push(1);
+                    out.push(children.len() as u64);
+                    for c in children {
+                        flatten(c, out);
+                    }
+                }
+                None => out.push(0),
+            }
+        }
+        let mut out = Vec::new();
+        flatten(&super::partition_scheme(num_parts, max_iter), &mut out);
+        out
+    }
+
+    pub fn compute_split_positions(
+        weights: &[f64],
+        permutation: &[usize],
+        modifiers: &[f64],
+    ) -> Vec<usize> {
+        super::compute_split_positions(weights, permutation, modifiers)
+    }
+}
+
 #[cfg(test)]
 mod tests {
     use super::*;
